@@ -237,7 +237,11 @@ type zzCall struct {
 	extraKeys   []string
 	extraNames  []string // metadata.name of the first item per key ("" if nil / empty)
 	extraCounts []int
-	rsp         *fnv1.RunFunctionResponse
+	// credentials and input the call carried
+	credNames []string
+	credData  []string // value of the key "token" per credential
+	input     *structpb.Struct
+	rsp       *fnv1.RunFunctionResponse
 }
 
 // zzRunner is the function runner: it answers each call with the scripted
@@ -280,6 +284,11 @@ func (r *zzRunner) RunFunction(_ context.Context, name string, req *fnv1.RunFunc
 		}
 		call.extraNames = append(call.extraNames, nm)
 	}
+	for cn, c := range req.GetCredentials() {
+		call.credNames = append(call.credNames, cn)
+		call.credData = append(call.credData, string(c.GetCredentialData().GetData()["token"]))
+	}
+	call.input = req.GetInput()
 	if st.err {
 		r.calls = append(r.calls, call)
 		return nil, errString("function failed")
